@@ -1517,6 +1517,11 @@ class Interp:
         res = self.call(callee, args, kwargs, node, env)
         if res is not None and res.kind == "bottom":
             raise _Terminate()
+        pc = getattr(self.dom, "post_call", None)
+        if pc is not None:
+            r2 = pc(self, callee, args, kwargs, res, node)
+            if r2 is not None:
+                res = r2
         if getattr(self.dom, "refine_rejected_none", False) and callee.kind == "func" and env is not None:
             # `f(x)` returned normally: if f raises whenever x is None, x is not None from here on
             for i, a in enumerate(node.args):
